@@ -86,7 +86,10 @@ def valid_request(rng, paths):
 def mutate(rng, raw):
     """one structure-unaware mutation of request bytes"""
     if not raw: return rng.bytes(rng.range(1, 20))
-    k = rng.below(9)
+    k = rng.below(11)
+    if k >= 9:
+        from vlib import vocab as V
+        return V.respell(rng, raw)                                # a token of the source's own vocabulary in another spelling
     b = bytearray(raw)
     i = rng.below(len(b))
     if k == 0: return bytes(b[:i])                               # truncate
